@@ -15,7 +15,7 @@ RULE = ('random grammars (C01 generator, modifier-heavy profile in half of them,
         'hits whose stored whitespace context equals / differs from the context at the hit. distinct = (grammar skeleton, '
         'input token kinds); non-trivial = the memoized parse had at least one cache hit')
 REQUIRED = {'pairs_compared': 1000, 'cache_hits_observed': 1000, 'hits_same_context': 500, 'grammars': 100,
-            'rejections_compared': 100}
+            'rejections_compared': 100, 'targeted_lookahead_grammars': 30, 'targeted_shared_prefix_grammars': 30}
 ML = None
 
 
@@ -52,6 +52,31 @@ def targeted_grammar(r):
     return Grammar(rules)
 
 
+def lookahead_grammar(r):
+    """Syntactic predicates over multi-token rules that are tried again at the same position outside the predicate:
+    what the predicate leaves in the cache (and what it reports as failure) must not change the outcome or the
+    position of the syntax error."""
+    from tv.refpeg import Assign, Choice, Grammar, Lit, Ref, Rule, Seq, Opt, Not, And
+    stmts = []
+    multi = ['Asg', 'Call', 'Decl']
+    x = r.choice(multi)
+    y = r.choice(multi)
+    stmts.append(Seq([Not(Ref(x)), Assign('e', '=', Ref('ID')), Lit(';')]))
+    stmts.append(Assign('a', '=', Ref(x)))
+    if y != x:
+        stmts.append(Seq([And(Ref(y)), Assign('b', '=', Ref(y))]) if r.random() < 0.5 else Assign('b', '=', Ref(y)))
+    if r.random() < 0.5:
+        stmts.insert(0, Seq([Not(Seq([Ref('ID'), Lit(':=')])), Not(Lit('var')), Assign('c', '=', Ref('Call'))]))
+    r.shuffle(stmts)
+    # the alternative guarded by !x must come before the one that takes x
+    rules = [Rule('Model', Seq([Opt(Lit('program')), Assign('stmts', '+=', Ref('Stmt'))])),
+             Rule('Stmt', Choice(stmts)),
+             Rule('Asg', Seq([Assign('name', '=', Ref('ID')), Lit(':='), Assign('val', '=', Ref('INT')), Lit(';')])),
+             Rule('Call', Seq([Assign('name', '=', Ref('ID')), Lit('('), Assign('args', '*=', Ref('INT'), sep=Lit(',')), Lit(')'), Lit(';')])),
+             Rule('Decl', Seq([Lit('var'), Assign('name', '=', Ref('ID')), Opt(Seq([Lit(':='), Assign('val', '=', Ref('INT'))])), Lit(';')]))]
+    return Grammar(rules)
+
+
 def _one(ctx, i, rep=None):
     from textx import metamodel_from_str, TextXError
     from tv.ggen import G
@@ -59,7 +84,10 @@ def _one(ctx, i, rep=None):
     ML = install_memo_log()
     rep = rep or {'i': i}
     r = ctx.rng('g', i)
-    if i % 3 == 0:
+    if i % 3 == 0 and i % 2 == 1:
+        g = lookahead_grammar(r)
+        ctx.count('targeted_lookahead_grammars')
+    elif i % 3 == 0:
         g = targeted_grammar(r)
         ctx.count('targeted_shared_prefix_grammars')
     else:
